@@ -492,21 +492,25 @@ func DownloadFolderHandler(rwc io.ReadWriter, fullPath string, fileTransfer *Fil
 			return fmt.Errorf("error sending flat file object: %w", err)
 		}
 
+		// An alias whose target is gone was announced with an empty data fork: there is nothing to send for it,
+		// and failing here would end the transfer before the remaining items.
 		file, err := fileStore.Open(path)
-		if err != nil {
+		if err != nil && !(info.Mode()&os.ModeSymlink != 0 && errors.Is(err, fs.ErrNotExist)) {
 			return fmt.Errorf("error opening file: %w", err)
 		}
 
-		// Resume: send the data fork from the offset the client asked for, as announced in the transfer size.
-		if dataOffset > 0 {
-			if _, err := file.Seek(dataOffset, io.SeekStart); err != nil {
-				return fmt.Errorf("error seeking to resume offset: %w", err)
+		if err == nil {
+			// Resume: send the data fork from the offset the client asked for, as announced in the transfer size.
+			if dataOffset > 0 {
+				if _, err := file.Seek(dataOffset, io.SeekStart); err != nil {
+					return fmt.Errorf("error seeking to resume offset: %w", err)
+				}
 			}
-		}
 
-		// wr := bufio.NewWriterSize(rwc, 1460)
-		if _, err = io.Copy(rwc, io.TeeReader(file, fileTransfer.bytesSentCounter)); err != nil {
-			return fmt.Errorf("error sending file: %w", err)
+			// wr := bufio.NewWriterSize(rwc, 1460)
+			if _, err = io.Copy(rwc, io.TeeReader(file, fileTransfer.bytesSentCounter)); err != nil {
+				return fmt.Errorf("error sending file: %w", err)
+			}
 		}
 
 		if nextAction[1] != 2 && hlFile.Ffo.FlatFileHeader.ForkCount[1] == 3 {
